@@ -205,7 +205,12 @@ def model(case, lf):
     selected = {}
     for rel in order:
         data = spec_bytes(files[rel])
-        r = lf.format(data, cfg_, opts.get("range"), verify=bool(opts.get("verify")), panic_marker=marker)
+        rg = opts.get("range")
+        if rg and (rg[0] in (None, 0)) and (rg[1] is None or rg[1] >= len(data)):
+            # a range that covers the whole text is no restriction: the expectation is taken from the
+            # run without a range (an oracle the range handling of the library cannot influence)
+            rg = None
+        r = lf.format(data, cfg_, rg, verify=bool(opts.get("verify")), panic_marker=marker)
         expected = data
         if r[0] == "ok":
             out = r[1].encode("utf-8")
